@@ -486,8 +486,9 @@ def interatomicDistanceVal (na rho m : α) : α :=
 (AttributeError / TypeError), `some none` = `None`. -/
 
 /-- `element.number_density` / `.interatomic_distance`: `None` as soon as the density is `None`
-    (the mass is not looked at), `None` when the mass is `None` -/
-def elDerived (f : α → α → α) (rho mass : Option (Option α)) : Option (Option α) :=
+    (the mass is not looked at), `None` when the mass is `None`; `bad r m` is the divisor test
+    (Python float division by zero raises ZeroDivisionError) -/
+def elDerived (bad : α → α → Bool) (f : α → α → α) (rho mass : Option (Option α)) : Option (Option α) :=
   match rho with
   | none => none
   | some none => some none
@@ -495,12 +496,23 @@ def elDerived (f : α → α → α) (rho mass : Option (Option α)) : Option (O
     match mass with
     | none => none
     | some none => some none
-    | some (some m) => some (some (f r m))
+    | some (some m) => if bad r m then none else some (some (f r m))
+
+variable [BEq α]
+
+/-- `element.number_density` -/
+def elNumberDensity (na : α) (rho mass : Option (Option α)) : Option (Option α) :=
+  elDerived (fun _ m => m == 0) (numberDensityVal na) rho mass
+
+/-- `element.interatomic_distance` -/
+def elInteratomicDistance (na : α) (rho mass : Option (Option α)) : Option (Option α) :=
+  elDerived (fun r _ => r * na * (((1 : Nat) : α) / ((10 ^ 24 : Nat) : α)) == 0)
+    (interatomicDistanceVal na) rho mass
 
 /-- `isotope.density`: `None` when the element's density is `None` (unknown, not an error);
     when the isotope or the element has no mass *attribute* the getter's AttributeError makes
     Python fall back to `Isotope.__getattr__`, i.e. to the element's density; a mass that is
-    `None` is a TypeError. -/
+    `None` is a TypeError, an element mass of 0 a ZeroDivisionError. -/
 def isoDensity (rho isoMass elMass : Option (Option α)) : Option (Option α) :=
   match rho with
   | none => none
@@ -509,7 +521,7 @@ def isoDensity (rho isoMass elMass : Option (Option α)) : Option (Option α) :=
     match isoMass, elMass with
     | none, _ => some (some r)
     | _, none => some (some r)
-    | some (some mi), some (some me) => some (some (isoDensityVal r mi me))
+    | some (some mi), some (some me) => if me == 0 then none else some (some (isoDensityVal r mi me))
     | _, _ => none
 
 end density
